@@ -3,7 +3,7 @@
    come from gen/TablesTyping.v, which is regenerated from the built crates on every run
    (`gv_typing dump-tables`); `src_params = Some P` fails when a constant is missing. *)
 From Coq Require Import NArith ZArith List Bool.
-From GV Require Import model.Resolve gen.TablesTyping proofs.ResolveProofs.
+From GV Require Import model.Resolve gen.TablesTyping model.ResolveSrc proofs.ResolveProofs.
 Import ListNotations.
 Open Scope N_scope.
 
